@@ -629,7 +629,8 @@ class Extractor:
         # R5 local macro expansion handled by directive `expand NAME`
         for c in children:
             if c.kind == 'expand':
-                self.expand_local_macro(c.args[0], text, mask, bo, bc, repl, rel, qname)
+                mh = [(h.args[1], h.args[2], h.text) for h in children if h.kind == 'expandhint' and h.args[0] == c.args[0]]
+                self.expand_local_macro(c.args[0], text, mask, bo, bc, repl, rel, qname, mh)
         # assemble
         pieces = []   # (start, end, text or None, origin)
         repl.sort()
@@ -672,10 +673,14 @@ class Extractor:
                     self.out.add(t3, ('rw', rel, R.line_of(text, origin[2]), qname, 'R11'))
                 else:
                     self.out.add(t2, origin)
+            elif origin[0] == 'rw' and origin[4] == 'R5':
+                t2 = self.strip_comments(t)
+                t3 = self.vis_rewrite(self.r11_asserts(t2, rel, origin[2]))
+                self.out.add(t3, origin)
             else:
                 self.out.add(t, origin)
 
-    def expand_local_macro(self, mname, text, mask, bo, bc, repl, rel, qname):
+    def expand_local_macro(self, mname, text, mask, bo, bc, repl, rel, qname, hints=()):
         """R5: a function-local macro_rules! with one arm is expanded textually."""
         mt = re.compile(r'macro_rules!\s*' + re.escape(mname) + r'\s*\{').search(text, bo, bc)
         if not mt or not mask[mt.start()]:
@@ -688,6 +693,16 @@ class Extractor:
         if not m_arm:
             raise LostAnchor('macro %s in %s is not single-arm' % (mname, qname))
         pattern, mbody = m_arm.group(1), m_arm.group(2)
+        # ghost hints anchored inside the macro body (copied into every expansion)
+        for (anchor, where, htext) in hints:
+            pos = find_norm(mbody, anchor, 0, len(mbody))
+            if pos is None or find_norm(mbody, anchor, pos[0] + 1, len(mbody)) is not None:
+                self.lost_hints.append('hint anchor %r in macro %s of %s not found exactly once: hint dropped' % (anchor, mname, qname))
+                continue
+            if where == 'before':
+                mbody = mbody[:pos[0]] + htext + '\n' + mbody[pos[0]:]
+            else:
+                mbody = mbody[:pos[1]] + '\n' + htext + '\n' + mbody[pos[1]:]
         # make sure there is one arm only: no top-level ';' followed by '('
         params = re.findall(r'\$(\w+)\s*:\s*(\w+)', pattern)
         seps = re.split(r'\$\w+\s*:\s*\w+', pattern)
